@@ -77,7 +77,17 @@ theorem LargeMono.trans {a b c : St} (h1 : LargeMono a b) (h2 : LargeMono b c) :
 theorem largeMono_putLarge (s : St) (zr : Ref) (z : Zip) : LargeMono s (putLarge s zr z) :=
   fun k z0 h => get_putLarge_other s zr z k z0 h
 
-theorem delSmallB_fields (s : St) (bud : Budget) (refs : List Ref) :
+theorem get_putLarge_cases (s : St) (zr : Ref) (z : Zip) (k : Ref) (z' : Zip)
+    (h : get (putLarge s zr z).large k = some z') : get s.large k = some z' ∨ k = zr := by
+  unfold putLarge at h
+  split at h
+  · exact Or.inl h
+  · simp only [get_ins] at h
+    by_cases e : k = zr
+    · exact Or.inr e
+    · simp only [e, if_false] at h; exact Or.inl h
+theorem delSmallB_fields
+ (s : St) (bud : Budget) (refs : List Ref) :
     (delSmallB s bud refs).1.large = s.large ∧ (delSmallB s bud refs).1.b = s.b ∧
     (delSmallB s bud refs).1.w = s.w ∧ (delSmallB s bud refs).1.z = s.z ∧ (delSmallB s bud refs).1.d = s.d := by
   unfold delSmallB
